@@ -46,6 +46,14 @@ pub struct Case {
     /// step the blob store's garbage collector asks which hashes to protect
     #[serde(default)]
     pub gc: Option<Vec<GcStep>>,
+    /// a crowd of bystander documents (each with one entry, every fifth with a policy and a remembered peer) imported before
+    /// the history: they must be listed and unchanged at the end, whatever was removed meanwhile
+    #[serde(default)]
+    pub crowd_docs: u16,
+}
+
+fn crowd_doc(i: u16) -> iroh_docs::NamespaceSecret {
+    iroh_docs::NamespaceSecret::from_bytes(blake3::hash(format!("crowd-doc-{i}").as_bytes()).as_bytes())
 }
 
 #[derive(Serialize, Deserialize, Clone, Debug)]
@@ -124,12 +132,13 @@ impl Prop for C16 {
             1 => Just(GcStep::Shutdown),
         ];
         let gc = prop::option::weighted(0.02, vec(gcstep, 2..=10));
-        (prop::bool::weighted(0.25), prop::bool::weighted(0.4), docs, pools(5), vec(step, 1..=max), prop::bool::weighted(0.3), gc)
-            .prop_map(|(file, raw, docs, pools, steps, via_actor, gc)| {
+        let crowd = prop_oneof![250 => Just(0u16), 1 => prop::sample::select(vec![127u16, 128, 255, 256, 257, 300])];
+        (prop::bool::weighted(0.25), prop::bool::weighted(0.4), docs, pools(5), vec(step, 1..=max), prop::bool::weighted(0.3), gc, crowd)
+            .prop_map(|(file, raw, docs, pools, steps, via_actor, gc, crowd_docs)| {
                 if gc.is_some() {
-                    return Case { file: false, raw: false, docs: vec![0, 1], pools, steps: vec![], via_actor: false, gc };
+                    return Case { file: false, raw: false, docs: vec![0, 1], pools, steps: vec![], via_actor: false, gc, crowd_docs: 0 };
                 }
-                Case { file, raw, docs, pools, steps, via_actor: via_actor && !raw, gc: None }
+                Case { file, raw, docs, pools, steps, via_actor: via_actor && !raw, gc: None, crowd_docs: if raw { 0 } else { crowd_docs } }
             })
             .boxed()
     }
@@ -223,6 +232,27 @@ fn check(ctx: &mut Ctx, c: &Case, o: &mut Outcome) -> R<()> {
     verif::set_clock(Some(T0 + 3));
     for i in 0..ids.len() {
         es(st.store.import_namespace(cap(i)))?;
+    }
+    // the crowd of bystander documents
+    let crowd_ids: Vec<NamespaceId> = (0..c.crowd_docs).map(|i| crowd_doc(i).id()).collect();
+    for i in 0..c.crowd_docs {
+        let sec = crowd_doc(i);
+        es(st.store.import_namespace(Capability::Write(sec.clone())))?;
+        let e = sign(&sec, &ESpec { a: authors[0], k: vec![b'k', i as u8], t: T0 + 1, c: 1 });
+        ctx.rt.block_on(async {
+            let mut r = es(st.store.open_replica(&sec.id()))?;
+            es(r.insert_remote_entry(e, [1u8; 32], ContentStatus::Missing).await)?;
+            Ok::<(), String>(())
+        })?;
+        st.store.close_replica(sec.id());
+        if i % 5 == 0 {
+            es(st.store.register_useful_peer(sec.id(), [9u8; 32]))?;
+            es(st.store.set_download_policy(&sec.id(), DownloadPolicy::NothingExcept(vec![FilterKind::Exact(vec![i as u8].into())])))?;
+        }
+    }
+    let crowd_before = store_dump(&mut st.store, &crowd_ids)?;
+    if c.crowd_docs > 0 {
+        o.class("crowd-of-bystander-documents(127..300)");
     }
     let mut exists = vec![true; ids.len()];
     let mut expected: Vec<DocDump> = (0..ids.len()).map(|_| empty_doc(Some(kind))).collect();
@@ -339,6 +369,9 @@ fn check(ctx: &mut Ctx, c: &Case, o: &mut Outcome) -> R<()> {
         }
         // every document: only the target may have changed
         let mut all_hashes: BTreeSet<[u8; 32]> = BTreeSet::new();
+        if c.crowd_docs > 0 {
+            all_hashes.insert(*content(1).0.as_bytes());
+        }
         for j in 0..ids.len() {
             let got = doc_dump(&mut st.store, ids[j])?;
             let writes = matches!(s, Step::Write(..) | Step::Settings(..));
@@ -370,6 +403,23 @@ fn check(ctx: &mut Ctx, c: &Case, o: &mut Outcome) -> R<()> {
         if reported != all_hashes {
             o.fail("C16/content-hashes", format!("step {n} {:?}: content_hashes() reports {} hashes, the documents hold {}", s, reported.len(), all_hashes.len()));
             break;
+        }
+    }
+    if c.crowd_docs > 0 && !o.failed() {
+        let mut crowd_after = store_dump(&mut st.store, &crowd_ids)?;
+        let mut before = crowd_before.clone();
+        // the store-wide hash list also covers the history's own documents
+        for d in [&mut crowd_after, &mut before] {
+            d.content_hashes.clear();
+            d.authors.clear();
+            d.namespaces.retain(|(id, _)| crowd_ids.iter().any(|c| c.as_bytes() == id));
+        }
+        if before.namespaces.len() != c.crowd_docs as usize {
+            return Err(format!("only {} of {} crowd documents were listed before the history", before.namespaces.len(), c.crowd_docs));
+        }
+        if crowd_after != before {
+            let changed: Vec<String> = before.docs.iter().filter(|(k, v)| crowd_after.docs.get(*k) != Some(*v)).take(3).map(|(k, v)| format!("{} was {} now {}", hex::encode(&k[..4]), describe_doc(v), crowd_after.docs.get(k).map(describe_doc).unwrap_or_default())).collect();
+            o.fail("C16/other-document-changed", format!("a crowd of {} bystander documents did not survive the history unchanged: {}", c.crowd_docs, changed.join("; ")));
         }
     }
     st.cleanup();
